@@ -2,6 +2,7 @@ import Ruint.Lemmas.AddmulN
 import Ruint.Lemmas.ShiftKernels
 import Ruint.Lemmas.Add
 import Ruint.Gen.AddmulN
+import Ruint.Lemmas.GenCore
 
 /-!
 # C15 — limb-slice multiply, accumulate, add, subtract, shift, compare kernels are exact
@@ -294,6 +295,38 @@ theorem gen_addmul4_spec (l0 l1 l2 l3 a0 a1 a2 a3 b0 b1 b2 b3 : ℕ) (hl : AllLt
 
 /-- the lengths `addmul_n` sends to an unrolled body are exactly the arms the model has. -/
 theorem gen_dispatch : Gen.AddmulN.unrolledLengths = [1, 2, 3, 4] := rfl
+
+/-! ## Tie of the word primitives `adc` / `sbb` to the source (G)
+
+`Ruint.Gen.adc` / `Ruint.Gen.sbb` (and the `DoubleWord` helpers they call) are regenerated from
+`src/algorithms/ops.rs` / `mod.rs` by `tools/rs2lean.py` on every run. On words they equal the
+model's `adc` / `sbb`, so the chain theorems above are about what the source says now. The proofs
+are semantic (`rs_norm` + `omega`): neutral rewrites of the Rust functions keep them valid. -/
+
+theorem gen_adc_eq (l r c : ℕ) (hl : l < W) (hr : r < W) (hc : c < W) :
+    Ruint.Gen.adc l r c = adc W l r c := by
+  unfold Ruint.Gen.adc Ruint.Gen.dw_split Ruint.Gen.dw_low Ruint.Gen.dw_high adc
+  rs_norm
+  unfold W at *
+  refine Prod.ext ?_ ?_ <;> simp only <;> omega
+
+theorem gen_sbb_eq (l r c : ℕ) (hl : l < W) (hr : r < W) (hc : c < W) :
+    Ruint.Gen.sbb l r c = sbb W l r c := by
+  unfold Ruint.Gen.sbb Ruint.Gen.dw_low Ruint.Gen.dw_high sbb
+  rs_norm
+  unfold W at *
+  refine Prod.ext ?_ ?_ <;> simp only <;> omega
+
+/-- the generated `adc`/`sbb` meet the word contracts directly (independent of the model). -/
+theorem gen_adc_spec (a b c : ℕ) (ha : a < W) (hb : b < W) (hc : c < W) :
+    (Ruint.Gen.adc a b c).1 + W * (Ruint.Gen.adc a b c).2 = a + b + c
+    ∧ (Ruint.Gen.adc a b c).1 < W ∧ (Ruint.Gen.adc a b c).2 < W :=
+  Ruint.GenCore.adc_spec a b c ha hb hc
+
+theorem gen_sbb_spec (a b c : ℕ) (ha : a < W) (hb : b < W) (hc : c < W) :
+    (Ruint.Gen.sbb a b c).1 + b + c = a + W * (Ruint.Gen.sbb a b c).2
+    ∧ (Ruint.Gen.sbb a b c).1 < W ∧ (Ruint.Gen.sbb a b c).2 < W :=
+  Ruint.GenCore.sbb_spec a b c ha hb hc
 
 /-! ## non-vacuity: concrete branch witnesses evaluated by the kernel -/
 
